@@ -299,6 +299,13 @@ func c11Oracle(r *RunCtx) error {
 		// duplicates by others, an unfunded creator
 		_ = step(&oracletypes.MsgCreateFeed{Creator: PickOne(p, signers).str(), Name: names[0]})
 		_ = step(&oracletypes.MsgCreateFeed{Creator: Acct(4).String(), Name: names[3]})
+		// look-alike names (surrounding blanks, other case) of existing feeds, created by every signer: a feed
+		// record is identified by its exact name, and nothing a stranger creates may land on someone else's feed
+		for _, n := range names[:2] {
+			for _, v := range []string{" " + n, n + " ", "\t" + n, strings.ToUpper(n), n + "\n"} {
+				_ = step(&oracletypes.MsgCreateFeed{Creator: PickOne(p, signers[:6]).str(), Name: v})
+			}
+		}
 		type pair struct {
 			s c11Signer
 			n string
